@@ -14,4 +14,16 @@ PROPS = {
         "B2: bytes.fromhex / bytes.hex / str.encode / bytes.decode are abstract (uninterpreted) mutually inverse maps",
     ], bounded=[]),
     "C18": dict(modules=["bits"], assumptions=A_ENGINE, bounded=[]),
+    "C14": dict(modules=["crypto"], assumptions=A_ENGINE + [
+        "X1: cryptography's PKCS7 padder/unpadder: update()+finalize() == pkcs7(m) / unpad7(d), invalid padding raises ValueError",
+        "X2: cryptography's AES-CBC: encryptor/decryptor are mutually inverse, length preserving on whole blocks; AES(key) accepts 16/24/32-byte keys; CBC IV has 16 bytes",
+        "X3: algorithms.AES.block_size == 128",
+        "A1: os.urandom returns fresh bytes: 'two encryptions differ' is the proved fact 'the IV (first 16 bytes) is the fresh draw' plus this assumption",
+        "A4 (NOT decided): decrypting under a different key never returns the original message -- a probabilistic property of AES/PKCS7, assumed",
+    ], bounded=[], runtime_checks=[["crypto", "rt_iv_fresh"]]),
+    "C16": dict(modules=["crypto"], assumptions=A_ENGINE + [
+        "X4: hmac.new(k, m, name).digest() and hashlib.new(name, m).digest() are pure functions of their arguments with digest_size bytes (digest_size > 0 for the non-XOF hashes); SHAKE digest(n) has n bytes",
+        "A2 (NOT decided): pairwise distinct outputs for distinct (key, message) -- collision freeness of HMAC, assumed",
+        "get_hash_implementation's module-level cache keyed by lower-cased name: only lower-case names are in the contract's domain",
+    ], bounded=[]),
 }
